@@ -1179,7 +1179,7 @@ def main():
   ap.add_argument('--maxfail', type=int, default=12)
   a = ap.parse_args()
   thorough = a.tier == 'thorough'
-  nstatic = a.static if a.static is not None else (100000 if thorough else 4000)
+  nstatic = a.static if a.static is not None else (80000 if thorough else 4000)
   nrand = a.random if a.random is not None else (12000 if thorough else 800)
   K = a.k if a.k is not None else (3 if thorough else 2)
   t0 = time.time()
